@@ -795,6 +795,10 @@ class LexerTokenStream(TokenStream):
             elif tok.type == "WHITESPACE":
                 new_tokbuf.append(tok)
             elif tok.type in ("COMMENT_SINGLELINE", "COMMENT_MULTILINE"):
+                if tok.value.endswith("\n") and self._extract_comments([tok]) is None:
+                    # a plain comment that ends the line ends the statement's
+                    # documentation too: what follows belongs to the next one
+                    break
                 comments.append(tok)
             else:
                 new_tokbuf.append(tok)
